@@ -652,7 +652,13 @@ func (c *Ctx) lexemes() *lexemeTable {
 	}
 	// number scanner result types: constants of token.Type returned by functions of package lexer returning (string, token.Type)
 	for _, f := range c.allFuncDecls("lexer") {
-		if f.Type.Results == nil || len(f.Type.Results.List) != 2 {
+		if f.Type.Results == nil || len(f.Type.Results.List) != 2 || f.Body == nil {
+			continue
+		}
+		// exactly (string, token.Type): the literal text and the type of the number that was read
+		r0, ok0 := info.Types[f.Type.Results.List[0].Type]
+		r1, ok1 := info.Types[f.Type.Results.List[1].Type]
+		if !ok0 || !ok1 || !types.Identical(r0.Type, types.Typ[types.String]) || !namedIs(r1.Type, "token", "Type") {
 			continue
 		}
 		ast.Inspect(f.Body, func(n ast.Node) bool {
